@@ -21,6 +21,7 @@ namespace Givaro {
     inline typename Poly1Dom<Domain,Dense>::Rep& Poly1Dom<Domain,Dense>::power_compose(Rep& W, const Rep& P, uint64_t b) const
     {
         Degree dp; degree(dp, P);
+        if (dp == Degree::deginfty) { W.resize(0); return W; } // P = 0: the loop bound below would wrap
         Type_t lc;
         leadcoef(lc, P);
         assign( W, b*dp.value(), lc); // all coeffs to zero, except leading ...
